@@ -80,11 +80,56 @@ let parser_case (toks : string list) : string =
     Buffer.contents b
   | _ -> "BADCASE"
 
+(* ---------------- router (C10) ---------------- *)
+
+let method_str = [| "OPTIONS"; "GET"; "POST"; "HEAD"; "PUT"; "PATCH"; "DELETE"; "TRACE"; "CONNECT" |]
+
+let router_case (toks : string list) : string =
+  match toks with
+  | "T" :: rest ->
+    let b = Buffer.create 256 in
+    Buffer.add_string b "T";
+    let table = ref [] in
+    let rec ops = function
+      | "Q" :: qs -> qs
+      | [] -> []
+      | op :: r ->
+        let parts = String.split_on_char ':' (String.sub op 1 (String.length op - 1)) in
+        (match op.[0], parts with
+         | '+', [ m; res; h ] ->
+           (match M.add_route !table (n_of_int (int_of_string m)) (bytes_of_hex res) (n_of_int (int_of_string h)) with
+            | Some t -> table := t; Buffer.add_string b " ok"
+            | None -> Buffer.add_string b " throw")
+         | '-', [ m; res ] ->
+           (match M.remove_route !table (n_of_int (int_of_string m)) (bytes_of_hex res) with
+            | Some t -> table := t; Buffer.add_string b " ok"
+            | None -> Buffer.add_string b " throw")
+         | _ -> Buffer.add_string b " BADOP");
+        ops r in
+    let qs = ops rest in
+    Buffer.add_string b " Q";
+    List.iter (fun q ->
+        match String.split_on_char ':' q with
+        | [ m; path ] ->
+          (match M.route !table (n_of_int (int_of_string m)) (bytes_of_hex path) with
+           | M.Match (h, ps, ss) ->
+             let ps = List.sort compare (List.map (fun (k, v) -> hex_of_bytes k ^ "=" ^ hex_of_bytes v) ps) in
+             Buffer.add_string b (Printf.sprintf " M%d(%s)[%s]" (int_of_n h) (String.concat "," ps)
+                                    (String.concat "," (List.map hex_of_bytes ss)))
+           | M.NotAllowed ms ->
+             let ms = List.sort compare (List.map (fun m -> method_str.(int_of_n m)) ms) in
+             Buffer.add_string b (" 405(" ^ String.concat "," ms ^ ")")
+           | M.NotFound -> Buffer.add_string b " 404")
+        | _ -> Buffer.add_string b " BADQ") qs;
+    Buffer.contents b
+  | _ -> "BADCASE"
+
 let () =
   let area = Sys.argv.(1) in
   let f = match area with
     | "base64" -> base64_case
     | "parser" -> parser_case
+    | "router" -> router_case
     | _ -> failwith ("unknown area " ^ area) in
   try
     while true do
